@@ -117,18 +117,22 @@ vh::Outcome run_def(const vh::Case& c, Prop prop) {
                         if (vrt::me().held != 0) vrt::fail("lock-leaked", "a mutex is still held after a submission returned");
                     } else if (kind <= 6) {
                         bool is_try = kind >= 5;
-                        long b0 = vrt::me().blocking_ops;
+                        long b0 = core ? (long)core->contended_by[vrt::self()] : 0;      // waits on the wrapper's main mutex only (the short internal queue mutex does not count)
                         long long w0 = vrt::me().waited_ns;
-                        bool timed_for = false;
+                        bool timed_for = false, nonpos = false;
                         bool excl_at_call = core && core->owner >= 0; long eacq0 = core ? core->excl_acqs : 0;
                         auto h = [&] {
                           try {
                             if (kind == 4) return d.lock_shared();
-                            if constexpr (MC<M>::timed) { if (kind == 6) { if (op.a & 1) { timed_for = true; return d.try_lock_shared_for(std::chrono::milliseconds(2)); } return d.try_lock_shared_until((std::chrono::steady_clock::now() + std::chrono::milliseconds(50))); } }
+                            if constexpr (MC<M>::timed) { if (kind == 6) {
+                                int dsel = (op.b >> 3) & 7; nonpos = dsel >= 4;
+                                if (op.a & 1) { timed_for = !nonpos; return nonpos ? d.try_lock_shared_for(timed_arg(dsel, false)) : d.try_lock_shared_for(std::chrono::milliseconds(2)); }
+                                return d.try_lock_shared_until((std::chrono::steady_clock::now() + timed_arg(dsel, true))); } }
                             return d.try_lock_shared();
                           } catch (const UserError&) { vrt::fail("foreign-exception", "a shared acquisition threw an exception that belongs to a queued function of another call"); }
                         }();
-                        (void)is_try; (void)b0;
+                        (void)is_try;
+                        if (nonpos && core && (long)core->contended_by[vrt::self()] != b0) vrt::fail("blocked-beyond-timeout", "a timed shared acquisition with a non-positive duration / past deadline blocked instead of giving up at once");
                         if (timed_for && vrt::me().waited_ns - w0 > 2000000LL)
                             vrt::fail("blocked-beyond-timeout", "try_lock_shared_for(2ms) spent " + std::to_string((vrt::me().waited_ns - w0) / 1000) + " us of virtual time in timed waits that gave up");
                         if (bool(h) != owns_shared())
@@ -222,7 +226,7 @@ vh::Outcome dispatch(const vh::Case& c, Prop p) {
 }
 
 vh::GenSpec spec(bool th, bool faults) {
-    vh::GenSpec g; g.nfibers = 4; g.max_ops = th ? 6 : 4; g.ncodes = 8; g.amax = 4; g.bmax = 8; g.cfg_max = {4};
+    vh::GenSpec g; g.nfibers = 4; g.max_ops = th ? 6 : 4; g.ncodes = 8; g.amax = 4; g.bmax = 64; g.cfg_max = {4};
     g.sched_len = th ? 224 : 160; g.aux_len = 24;
     if (faults) { g.fault_max = 10; g.fault_mask = vrt::F_FUNCTOR; }
     return g;
